@@ -94,3 +94,34 @@ class G:
         if k == 5: return pin[::-1] if pin[::-1] != pin else pin + b"z"
         if k == 6: return pin + pin
         return bytes(r.randrange(256) for _ in range(max(4, len(pin))))
+
+
+FS_ERRS = {"write": ["ENOSPC", "EIO", "EDQUOT"], "ftruncate": ["EIO", "EINTR"], "open": ["EACCES", "EMFILE", "ENOSPC", "EINTR"], "lock": ["ENOLCK", "EINTR"], "unlock": ["ENOLCK"], "read": ["EIO"],
+           "remove": ["EACCES", "EBUSY", "EIO"], "fstat": ["EIO"], "opendir": ["EMFILE", "EACCES"], "lstat": ["EIO"], "readdir": ["EIO"], "mkdir": ["ENOSPC"], "rmdir": ["EBUSY"]}
+
+def place_faults(plan, z, seed, per_op=1):
+    """two-pass fault placement (DESIGN 2.5): run the plan once without faults to learn how many file operations of each kind every candidate call
+    performs, then attach faults to (call, kind, ordinal) positions drawn over the call's WHOLE I/O sequence (biased to its first and last operations)."""
+    import random, copy
+    cands = plan.get("fault_candidates")
+    if not cands or plan.get("faults"):
+        return plan
+    r = random.Random(seed ^ 0xFA17)
+    p1 = copy.deepcopy(plan); p1["faults"] = []
+    res = z.run(p1)
+    fsn = {}
+    for e in res.hist:
+        if e.get("e") == "ret" and "cs" not in e and e.get("t") == 0 and "fsn" in e: fsn[e["op"]] = e["fsn"]
+    plan = copy.deepcopy(plan); plan["faults"] = []
+    for k in cands:
+        counts = {kind: n for kind, n in fsn.get(k, {}).items() if kind in FS_ERRS and n > 0}
+        if not counts: continue
+        for _ in range(per_op):
+            kinds = list(counts)
+            # writes / truncates / removes are where persistence is decided: weight them up
+            wts = [4 if kk in ("write", "ftruncate", "remove") else 2 if kk in ("open", "lock", "unlock") else 1 for kk in kinds]
+            kind = r.choices(kinds, wts)[0]; n = counts[kind]
+            x = r.random()
+            nth = n - 1 if x < 0.3 else 0 if x < 0.45 else max(n - 2, 0) if x < 0.55 else r.randrange(n)
+            plan["faults"].append({"tid": 0, "op": k, "fs": kind, "nth": nth, "err": r.choice(FS_ERRS[kind]), "partial": r.choice([0, 0, 9, 100])})
+    return plan
